@@ -145,7 +145,7 @@ theorem absPow_hasDerivAt (q δ : ℝ) (hδ : δ ≠ 0) :
 /-- Product kernel, one coordinate. -/
 theorem prod_coord (P : Params ℝ) (vpre vpost upre upost : List ℝ) (a t : ℝ) (h : vpre.length = upre.length)
     (hta : t ≠ a)
-    (hne : ¬ (pSum P.q (vsub (vpre ++ t :: vpost) (upre ++ a :: upost)) < P.eps)) :
+    (hne : ¬ (pNorm P.q (vsub (vpre ++ t :: vpost) (upre ++ a :: upost)) < P.eps)) :
     ∃ g, (gradProd P (upre ++ a :: upost) (vpre ++ t :: vpost))[vpre.length]? = some g ∧
       HasDerivAt (fun s => kProd P (upre ++ a :: upost) (vpre ++ s :: vpost)) g t := by
   have hδ : t - a ≠ 0 := sub_ne_zero.2 hta
@@ -446,15 +446,17 @@ theorem pSum_self (a : ℝ) (ha : a ≠ 0) (u : List ℝ) : pSum a (vsub u u) = 
   unfold pSum; rw [vsub_self, List.map_replicate]
   simp only [rpow_real, abs_real, abs_zero, Real.zero_rpow ha, vsum_replicate_zero]
 
-/-- The masks do fire at a coincidence (`eps > 0`): distance, `Σ|Δ|^q` and `‖Δ‖_p` are 0 there. -/
+/-- The masks do fire at a coincidence (`eps > 0`): distance, `‖Δ‖_q` and `‖Δ‖_p` are 0 there. -/
 theorem masks_fire (P : Params ℝ) (heps : 0 < P.eps) (hq : 0 < P.q) (hp : 0 < P.p) (u : List ℝ) :
-    Real.sqrt (sqDist u u) < P.eps ∧ pSum P.q (vsub u u) < P.eps ∧ pNorm P.p (vsub u u) < P.eps := by
-  refine ⟨by rw [sqDist_self, Real.sqrt_zero]; exact heps, by rw [pSum_self _ hq.ne']; exact heps, ?_⟩
-  unfold pNorm
-  rw [pSum_self _ hp.ne']
-  simp only [rpow_real]
-  rw [Real.zero_rpow (one_div_ne_zero hp.ne')]
-  exact heps
+    Real.sqrt (sqDist u u) < P.eps ∧ pNorm P.q (vsub u u) < P.eps ∧ pNorm P.p (vsub u u) < P.eps := by
+  have hn : ∀ p : ℝ, 0 < p → pNorm p (vsub u u) < P.eps := by
+    intro p hp
+    unfold pNorm
+    rw [pSum_self _ hp.ne']
+    simp only [rpow_real]
+    rw [Real.zero_rpow (one_div_ne_zero hp.ne')]
+    exact heps
+  exact ⟨by rw [sqDist_self, Real.sqrt_zero]; exact heps, hn _ hq, hn _ hp⟩
 
 /-- For `q ≥ 1` the (unmasked) L2 term stays bounded as the point approaches the center:
 `|M_ij · δ| ≤ (q/L^q) · dist^{q−1}` for `|δ| ≤ dist`. -/
@@ -577,7 +579,7 @@ def CoordOK (k : Kind) (P : Params ℝ) (u v : List ℝ) (δ : ℝ) : Prop :=
   match k with
   | .l2 => ¬ (Real.sqrt (sqDist u v) < P.eps)
   | .light => ¬ (Real.sqrt (sqDist u v) < P.eps)
-  | .prod => δ ≠ 0 ∧ ¬ (pSum P.q (vsub v u) < P.eps)
+  | .prod => δ ≠ 0 ∧ ¬ (pNorm P.q (vsub v u) < P.eps)
   | .lpq => δ ≠ 0 ∧ ¬ (pNorm P.p (vsub v u) < P.eps)
   | .sumPower => ¬ (|δ| < P.eps)
 
